@@ -18,7 +18,7 @@ GROUPS.append(Group(name="C18/list_output_msp430", unity="C18/u_listfmt.cpp", en
 # byte-column family: bytes[] capacity 10 / 16 / 14 must hold 3 characters per byte of the longest instruction
 for cpu, maxlen in (("6800", 3), ("6809", 5), ("68hc08", 4)):
     GROUPS.append(Group(name="C18/list_output_%s" % cpu, unity="C18/u_listbytes.cpp", entry="h_listbytes",
-                        functions=[("list_output_%s" % cpu, "disasm/%s.cpp" % cpu, "harness+2 loop-contracts, any range (function text extracted verbatim)"), ("disasm_%s" % cpu, "disasm/%s.cpp" % cpu, "replaced by its contract (length 1..%d)" % maxlen)],
+                        functions=[("list_output_%s" % cpu, "disasm/%s.cpp" % cpu, "harness+2 loop-contracts, any range (function text extracted verbatim)"), ("disasm_%s" % cpu, "disasm/%s.cpp" % cpu, "replaced by its contract (length 1..%d)%s" % (maxlen, " - ASSUMED, C08/disasm_6809 does not finish" if cpu == "6809" else ", discharged by C08/disasm_%s (thorough tier)" % cpu))],
                         defines=["LISTFN=list_output_%s" % cpu, "DISFN=disasm_%s" % cpu, "MAXLEN=%d" % maxlen, "DISHDR=disasm/%s.h" % cpu, "LISTINC=gen/list_output_%s.inc" % cpu],
                         subst={"FN": "list_output_%s" % cpu, "MAXLEN": maxlen}, loops="C18/listbytes.loops.json", expected_loops=2, unwind=14, checks=CH, timeout=900))
 GROUPS += [g for g in _c12.GROUPS if g.name == "C12/assemble"]
